@@ -12,7 +12,7 @@ Notation step := (step sem sem_slf dv).
 (* no caller blocks forever: in every reachable state in which the actor is dead (a user method panicked at any point of
    any schedule, a reply failed on an abandoned call, or the loop ended otherwise), every caller that is inside a call -
    sending, blocked on a full queue, or waiting for its reply - has an enabled step.  Needs a channel whose receiver
-   discards queued messages when dropped (std, tokio). *)
+   discards queued messages when dropped (std, tokio) or a play that holds the drain guard (async_std, smol): C20_drain_iff. *)
 Theorem C20_no_hang : forall (m : model), wf_C20 m = true -> r_drain (elab m) = true ->
   forall a0 progs sched, let s := run (elab m) a0 progs sched in
   alive s = false -> forall t cl, nth_error (clients s) t = Some cl -> in_call (c_pc cl) -> step (elab m) s (Cl t) <> None.
@@ -43,9 +43,17 @@ Proof.
 Qed.
 End C20.
 
-(* KNOWN FINDING (async-channel): when the receiver does not discard queued messages (r_drain = false: async_std, smol),
-   a value-returning call that is buffered when the actor dies is never answered and its caller blocks forever.
-   Witness: client 0 makes the method panic, client 1's call is queued behind it. *)
+(* Which instances have a draining receiver: std and tokio receivers discard their queue when dropped; on the async-channel
+   runtimes (async_std, smol) the generated play must hold the drain guard on its own receiver (repair e47f24b).  So C20_no_hang
+   applies to every instance of the four runtimes whose play has the recognised shape. *)
+Theorem C20_drain_iff : forall (m : model),
+  r_drain (elab m) = match m_lib m with Std | Tokio => true | _ => drain_guard m end.
+Proof. reflexivity. Qed.
+
+(* FIXED DEFECT (was: known finding async-channel-buffered-reply): when the receiver does not discard queued messages
+   (r_drain = false: async_std / smol without the guard), a value-returning call that is buffered when the actor dies is never
+   answered and its caller blocks forever.  Witness: client 0 makes the method panic, client 1's call is queued behind it.
+   Kept as the reason for the premise of C20_no_hang: a change that removes the guard falls back into this case. *)
 Definition m_nodrain : rmodel :=
   {| r_cap := None;
      r_meths := [ {| rm_reply := true; rm_send := SBlocking; rm_loud_send := true; rm_loud_wait := true; rm_fields := [0]; rm_args := [0];
@@ -67,4 +75,5 @@ Proof. vm_compute. reflexivity. Qed.
 Print Assumptions C20_no_hang.
 Print Assumptions C20_loud.
 Print Assumptions C20_no_fabrication.
+Print Assumptions C20_drain_iff.
 Print Assumptions C20_no_hang_refuted_without_drain.
